@@ -251,10 +251,11 @@ struct Canary {
 int run_canaries(const std::string &prop) {
   int failed = 0, total = 0;
   auto expect_cls = [&](const char *name, const Plan &p, const char *cls) {
+    long sab0 = stats().sabotage_applied;
     RunResult r = run_plan(p, RunOptions());
-    // a canary whose sin needs a particular OS call (mremap) is not applicable to a tree that never makes that call
-    if (std::string(name) == "stale_mremap_address" && r.st.growths == 0) {
-      fprintf(real_out(), "CANARY-SKIPPED %s: the library did not call mremap\n", name);
+    // a canary whose sin needs a particular OS call (a moving mremap) is not applicable to a tree that never makes that call
+    if (std::string(name) == "stale_mremap_address" && stats().sabotage_applied == sab0) {
+      fprintf(real_out(), "CANARY-SKIPPED %s: the library made no mremap call that may move the mapping\n", name);
       return;
     }
     total++;
